@@ -400,6 +400,324 @@ def _install_known_loader():
     C.load_known = load
 
 
+# ----------------------------------------------------------------------------- AST tie of the decision logic
+# The integer decision logic of tensorly/tenalg/svd.py (n_eigenvecs clamping, full_matrices switch, slice bounds, branch
+# conditions) is translated from the Python ast on every run and PROVED equal to the model's decision functions
+# (Proofs/SvdDecisions.v, through which Model/Svd.v's functions factor by the lemmas *_factored).  A source that can no
+# longer be translated is counted (the differential correspondence still covers it); a translated source whose goals do
+# not prove means the model no longer mirrors the code.
+import ast
+
+
+class Untranslatable(Exception):
+    pass
+
+
+NONE = object()          # the Python value None
+OPAQUE = object()        # anything that is not integer decision logic (arrays, calls of linear algebra)
+
+
+def g_expr(e, env):
+    """integer-valued Python expression -> Gallina nat term"""
+    if isinstance(e, ast.Constant) and isinstance(e.value, int) and not isinstance(e.value, bool) and e.value >= 0:
+        return f"{e.value}"
+    if isinstance(e, ast.Name):
+        v = env.get(e.id, OPAQUE)
+        if v is OPAQUE or v is NONE or (isinstance(v, str) and v.startswith("(B)")):
+            raise Untranslatable(f"name {e.id}")
+        return v
+    if isinstance(e, ast.BinOp) and isinstance(e.op, ast.Add):
+        return f"({g_expr(e.left, env)} + {g_expr(e.right, env)})"
+    if isinstance(e, ast.Call) and isinstance(e.func, ast.Name) and e.func.id in ("min", "max") and len(e.args) >= 2 and not e.keywords:
+        fn = "Nat.min" if e.func.id == "min" else "Nat.max"
+        acc = g_expr(e.args[0], env)
+        for a in e.args[1:]:
+            acc = f"({fn} {acc} {g_expr(a, env)})"
+        return acc
+    if isinstance(e, ast.IfExp):
+        return f"(if {g_bool(e.test, env)} then {g_expr(e.body, env)} else {g_expr(e.orelse, env)})"
+    raise Untranslatable(ast.dump(e)[:80])
+
+
+def g_bool(e, env):
+    """boolean Python expression over integers -> Gallina bool term"""
+    if isinstance(e, ast.Constant) and isinstance(e.value, bool):
+        return "true" if e.value else "false"
+    if isinstance(e, ast.BoolOp):
+        op = " && " if isinstance(e.op, ast.And) else " || "
+        return "(" + op.join(g_bool(v, env) for v in e.values) + ")"
+    if isinstance(e, ast.UnaryOp) and isinstance(e.op, ast.Not):
+        return f"(negb {g_bool(e.operand, env)})"
+    if isinstance(e, ast.IfExp):
+        return f"(if {g_bool(e.test, env)} then {g_bool(e.body, env)} else {g_bool(e.orelse, env)})"
+    if isinstance(e, ast.Compare) and len(e.ops) == 1:
+        a, b = g_expr(e.left, env), g_expr(e.comparators[0], env)
+        op = e.ops[0]
+        if isinstance(op, ast.Gt): return f"({b} <? {a})"
+        if isinstance(op, ast.Lt): return f"({a} <? {b})"
+        if isinstance(op, ast.GtE): return f"({b} <=? {a})"
+        if isinstance(op, ast.LtE): return f"({a} <=? {b})"
+        if isinstance(op, ast.Eq): return f"({a} =? {b})"
+        if isinstance(op, ast.NotEq): return f"(negb ({a} =? {b}))"
+    if isinstance(e, ast.Name):
+        v = env.get(e.id, OPAQUE)
+        if isinstance(v, str) and v.startswith("(B)"):
+            return v[3:]
+    raise Untranslatable(ast.dump(e)[:80])
+
+
+def static_none_test(e, env):
+    """`x is None` / `x is not None` decided from the symbolic environment; None if the test has another form"""
+    if isinstance(e, ast.Compare) and len(e.ops) == 1 and isinstance(e.left, ast.Name) and \
+            isinstance(e.comparators[0], ast.Constant) and e.comparators[0].value is None:
+        is_none = env.get(e.left.id, OPAQUE) is NONE
+        if isinstance(e.ops[0], ast.Is): return is_none
+        if isinstance(e.ops[0], ast.IsNot): return not is_none
+    return None
+
+
+def is_call(e, *names):
+    if not isinstance(e, ast.Call):
+        return False
+    f = e.func
+    nm = f.id if isinstance(f, ast.Name) else (f.attr if isinstance(f, ast.Attribute) else None)
+    return nm in names
+
+
+class Run:
+    """symbolic execution of a straight-line function body with ifs; integer decision logic is kept, the rest is opaque"""
+    def __init__(self, env):
+        self.env = dict(env)
+        self.tests = []       # (lineno, Gallina bool) of every `if` whose test is integer logic and whose body is array code
+        self.calls = {}       # callee name -> list of {kw: translated or OPAQUE}
+        self.ret = None
+
+    def value(self, e):
+        try:
+            return g_expr(e, self.env)
+        except Untranslatable:
+            pass
+        try:
+            return "(B)" + g_bool(e, self.env)
+        except Untranslatable:
+            pass
+        if isinstance(e, ast.Constant) and e.value is None:
+            return NONE
+        if isinstance(e, ast.Call):
+            nm = e.func.id if isinstance(e.func, ast.Name) else (e.func.attr if isinstance(e.func, ast.Attribute) else "?")
+            rec = {}
+            for kw in e.keywords:
+                if kw.arg:
+                    try:
+                        rec[kw.arg] = g_expr(kw.value, self.env)
+                    except Untranslatable:
+                        try:
+                            rec[kw.arg] = g_bool(kw.value, self.env)
+                        except Untranslatable:
+                            rec[kw.arg] = OPAQUE
+            self.calls.setdefault(nm, []).append(rec)
+        return OPAQUE
+
+    def assign(self, tgt, val_node):
+        if isinstance(tgt, ast.Name):
+            self.env[tgt.id] = self.value(val_node)
+        elif isinstance(tgt, ast.Tuple):
+            names = [t.id if isinstance(t, ast.Name) else None for t in tgt.elts]
+            if isinstance(val_node, ast.Tuple) and len(val_node.elts) == len(names):
+                vals = [self.value(v) for v in val_node.elts]
+            elif is_call(val_node, "shape") and len(names) == 2:
+                vals = ["d1", "d2"]
+            elif is_call(val_node, "svd_checks") and len(names) == 3:
+                self.value(val_node)
+                vals = ["k", "mn", "mx"]
+            else:
+                self.value(val_node)
+                vals = [OPAQUE] * len(names)
+            for n_, v in zip(names, vals):
+                if n_:
+                    self.env[n_] = v
+
+    def block(self, stmts):
+        for s in stmts:
+            if self.ret is not None:
+                return
+            if isinstance(s, ast.Assign):
+                for t in s.targets:
+                    self.assign(t, s.value)
+            elif isinstance(s, ast.Expr):
+                if isinstance(s.value, ast.Call):
+                    self.value(s.value)
+            elif isinstance(s, ast.Return):
+                self.ret = s.value
+            elif isinstance(s, ast.If):
+                if all(isinstance(b, ast.Raise) for b in s.body) and not s.orelse:
+                    continue                      # a precondition check
+                st = static_none_test(s.test, self.env)
+                if st is not None:
+                    self.block(s.body if st else s.orelse)
+                    continue
+                try:
+                    c = g_bool(s.test, self.env)
+                except Untranslatable:
+                    c = None
+                a, b = Run(self.env), Run(self.env)
+                a.block(s.body); b.block(s.orelse)
+                for k_, v in list(a.calls.items()) + list(b.calls.items()):
+                    self.calls.setdefault(k_, []).extend(v)
+                self.tests += a.tests + b.tests
+                if c is not None:
+                    self.tests.append((s.lineno, c))
+                for name in set(a.env) | set(b.env):
+                    va, vb, old = a.env.get(name, OPAQUE), b.env.get(name, OPAQUE), self.env.get(name, OPAQUE)
+                    if va is vb or va == vb:
+                        self.env[name] = va
+                    elif c is not None and isinstance(va, str) and isinstance(vb, str) and not va.startswith("(B)"):
+                        self.env[name] = f"(if {c} then {va} else {vb})"
+                    else:
+                        self.env[name] = OPAQUE
+            elif isinstance(s, (ast.For, ast.While)):
+                sub = Run(self.env); sub.block(s.body)
+                for name in sub.env:
+                    if sub.env[name] is not self.env.get(name, OPAQUE) and sub.env[name] != self.env.get(name, OPAQUE):
+                        self.env[name] = OPAQUE
+            # anything else: ignored
+
+
+def slice_bound(sub, env, axis):
+    """upper bound of X[:b] (axis 0 of a 1-D / 2-D array) or X[:, :b] (axis 1)"""
+    if not isinstance(sub, ast.Subscript):
+        raise Untranslatable("return element is not a slice")
+    sl = sub.slice
+    parts = list(sl.elts) if isinstance(sl, ast.Tuple) else [sl]
+    part = parts[axis] if axis < len(parts) else None
+    if not isinstance(part, ast.Slice) or part.lower is not None or part.step is not None or part.upper is None:
+        raise Untranslatable("slice form")
+    for i, q in enumerate(parts):
+        if i != axis and not (isinstance(q, ast.Slice) and q.lower is None and q.upper is None and q.step is None):
+            raise Untranslatable("other axes must be full slices")
+    return g_expr(part.upper, env)
+
+
+def return_bounds(ret, env):
+    if not isinstance(ret, ast.Tuple) or len(ret.elts) != 3:
+        raise Untranslatable("return is not a triple")
+    return slice_bound(ret.elts[0], env, 1), slice_bound(ret.elts[1], env, 0), slice_bound(ret.elts[2], env, 0)
+
+
+TIE_TAC = """Ltac tie := intros;
+  repeat match goal with x : option nat |- _ => destruct x end;
+  cbv [svd_checks dec_full dec_trunc_bounds dec_symeig_tall dec_symeig_bounds dec_rand_ndims dec_rand_transposed];
+  repeat match goal with
+  | |- context [?a <? ?b] => destruct (Nat.ltb_spec a b)
+  | |- context [?a <=? ?b] => destruct (Nat.leb_spec a b)
+  | |- context [?a =? ?b] => destruct (Nat.eqb_spec a b)
+  end; cbn [andb orb negb];
+  first [ reflexivity | (repeat f_equal; lia) | (exfalso; lia) ]."""
+HEAD = """From Coq Require Import Arith Bool Lia.
+From TLV Require Import Model.Svd Proofs.SvdDecisions.
+""" + TIE_TAC + "\n"
+
+
+def ties(src):
+    """-> list of (name, Coq file text or None, reason if untranslatable)"""
+    tree = ast.parse(src)
+    funs = {n.name: n for n in tree.body if isinstance(n, ast.FunctionDef)}
+    out = []
+
+    def attempt(name, fn):
+        try:
+            out.append((name, HEAD + fn(), None))
+        except (Untranslatable, KeyError, IndexError, AttributeError, TypeError) as e:
+            out.append((name, None, f"{type(e).__name__}: {e}"[:200]))
+
+    def t_svd_checks():
+        res = {}
+        for tag, v in (("None", NONE), ("Some", "r")):
+            r_ = Run({"n_eigenvecs": v}); r_.block(funs["svd_checks"].body)
+            if not isinstance(r_.ret, ast.Tuple) or len(r_.ret.elts) != 3:
+                raise Untranslatable("svd_checks does not return a triple")
+            res[tag] = [g_expr(x, r_.env) for x in r_.ret.elts]
+        return (f"Definition ast_svd_checks (d1 d2 : nat) (n : option nat) : nat * nat * nat :=\n"
+                f"  match n with None => ({', '.join(res['None'])}) | Some r => ({', '.join(res['Some'])}) end.\n"
+                f"Goal forall d1 d2 n, svd_checks d1 d2 n = ast_svd_checks d1 d2 n.\nProof. unfold ast_svd_checks. tie. Qed.\n")
+
+    def t_truncated():
+        r_ = Run({"n_eigenvecs": "n0"}); r_.block(funs["truncated_svd"].body)
+        full = [c.get("full_matrices") for c in r_.calls.get("svd", [])]
+        if len(full) != 1 or not isinstance(full[0], str):
+            raise Untranslatable("tl.svd(..., full_matrices=<integer logic>) not found exactly once")
+        b = return_bounds(r_.ret, r_.env)
+        return (f"Goal forall k mn mx : nat, dec_full k mn = {full[0]}.\nProof. tie. Qed.\n"
+                f"Goal forall k mn mx : nat, dec_trunc_bounds k = ({b[0]}, {b[1]}, {b[2]}).\nProof. tie. Qed.\n")
+
+    def t_symeig():
+        r_ = Run({"n_eigenvecs": "n0"}); r_.block(funs["symeig_svd"].body)
+        tests = [c for (_, c) in r_.tests]
+        if len(tests) != 1:
+            raise Untranslatable(f"expected one integer branch condition, found {len(tests)}")
+        b = return_bounds(r_.ret, r_.env)
+        return (f"Goal forall d1 d2 k mn mx : nat, dec_symeig_tall d1 d2 = {tests[0]}.\nProof. tie. Qed.\n"
+                f"Goal forall d1 d2 k mn mx : nat, dec_symeig_bounds d1 d2 k = ({b[0]}, {b[1]}, {b[2]}).\nProof. tie. Qed.\n")
+
+    def t_randomized():
+        r_ = Run({"n_eigenvecs": "n0", "n_oversamples": "n_over"}); r_.block(funs["randomized_svd"].body)
+        tests = [c for (_, c) in r_.tests]
+        nd = r_.env.get("n_dims")
+        if len(tests) != 1 or not isinstance(nd, str):
+            raise Untranslatable(f"n_dims / branch condition not found ({len(tests)} conditions)")
+        inner = [c.get("n_eigenvecs") for c in r_.calls.get("truncated_svd", [])]
+        rf = [c.get("n_dims") for c in r_.calls.get("randomized_range_finder", [])]
+        if len(inner) != 2 or any(x != "k" for x in inner) or len(rf) != 2 or any(x != nd for x in rf):
+            raise Untranslatable("inner truncated_svd(n_eigenvecs=clamped) / range finder(n_dims=n_dims) calls not as modelled")
+        # n_dims itself (the width of the Gaussian draw) is incidental; what is tied is the branch condition as a function
+        # of the shape, the clamped request and n_oversamples, with the source's n_dims substituted
+        return (f"Goal forall d1 d2 k mn mx n_over : nat, mn = Nat.min d1 d2 -> mx = Nat.max d1 d2 -> "
+                f"dec_rand_transposed d1 d2 k mn (dec_rand_ndims k n_over mx) = {tests[0]}.\nProof. tie. Qed.\n")
+
+    attempt("svd_checks", t_svd_checks)
+    attempt("truncated_svd", t_truncated)
+    attempt("symeig_svd", t_symeig)
+    attempt("randomized_svd", t_randomized)
+    return out
+
+
+
+def run_ast_tie(chk):
+    import subprocess, shutil
+    src_path = os.path.join(C.REPO, "tensorly", "tenalg", "svd.py")
+    d = os.path.join(C.BUILD, "cases", "C05", f"ast_{os.getpid()}")
+    shutil.rmtree(d, ignore_errors=True); os.makedirs(d, exist_ok=True)
+    res = {"proved": [], "untranslated": [], "skipped": []}
+    procs = []
+    try:
+        items = ties(open(src_path).read())
+    except SyntaxError as e:
+        chk.broken.append({"what": "ast tie: tensorly/tenalg/svd.py does not parse", "detail": str(e)})
+        return res
+    for name, text, why in items:
+        if text is None:
+            res["untranslated"].append(f"{name}: {why}")
+            continue
+        fn = os.path.join(d, f"Tie_{name}.v")
+        open(fn, "w").write(text)
+        procs.append((name, fn, subprocess.Popen(["timeout", "300", "coqc", "-w", "none", "-R", os.path.join(C.COQ, "theories"), "TLV", fn],
+                                                 stdout=subprocess.PIPE, stderr=subprocess.PIPE, text=True, cwd=d)))
+    for name, fn, p_ in procs:
+        out, err = p_.communicate()
+        if p_.returncode == 0:
+            res["proved"].append(name)
+        elif p_.returncode in (124, 137, -9, -15):
+            res["skipped"].append(name)
+        else:
+            chk.broken.append({"what": f"ast tie: the decision logic of tensorly.tenalg.svd.{name} differs from Model/Svd.v (generated goal does not prove)",
+                               "detail": {"goal_file": open(fn).read()[-1500:], "coqc": (out + err)[-1200:]}})
+    if not any(b.get("what", "").startswith("ast tie") for b in chk.broken):
+        shutil.rmtree(d, ignore_errors=True)
+    chk.cov["ast_tie"] = res
+    chk.checker_cmds.append("coqc on goals generated from the Python ast of tensorly/tenalg/svd.py (decision logic = Proofs/SvdDecisions.v)")
+    return res
+
+
 # ----------------------------------------------------------------------------- shard retry (local helper)
 def retry_broken(broken, timeout=900):
     """A coqc shard killed from outside (SIGKILL by the OOM killer of the shared machine, or the shell timeout) carries no
@@ -563,6 +881,8 @@ def run(chk):
         tm["t"], tm["c"] = time.time(), time.process_time()
     chk.build_proofs()
     lap("build_proofs")
+    run_ast_tie(chk)
+    lap("ast tie")
     # common.print_assumptions also captures the header line "Axioms:" that Coq prints before the list; it is not an axiom
     chk.axioms = {k: [a for a in v if a != "Axioms"] for k, v in chk.axioms.items()}
     chk.broken = [b for b in chk.broken if not (str(b.get("what", "")).endswith("depends on non-stdlib axioms") and b.get("detail") == ["Axioms"])]
